@@ -273,7 +273,7 @@ pub fn run(rep: &mut Report) {
         eprintln!("no C13 workers found in {BIN}; run tools/build_workers.sh");
         std::process::exit(2);
     }
-    let n = rep.n(6000, 20000);
+    let n = rep.n(6000, 60000);
     let rule = format!(
         "generated models (with tag models) x texts sent to {} worker processes, one per vaporetto \
 feature subset ({}), each using only Model::read_slice, each predicting twice (with the predictor \
